@@ -4,3 +4,5 @@ import TdmsProofs.Properties.C17
 import TdmsProofs.Properties.C18
 import TdmsProofs.Properties.C18ExpSound
 import TdmsProofs.Properties.C20
+import TdmsProofs.Properties.C13
+import TdmsProofs.Properties.C14
